@@ -13,7 +13,8 @@ open Greg
 theorem dayCorrectionLoop_spec (tz : TZ) (start end_ : IsoDateTime) (ns2 sign maxCorr : Int) :
     ∀ (fuel : Nat) (corr : Int) (idt : IsoDateTime) (td : Int),
       dayCorrectionLoop tz start end_ ns2 sign maxCorr fuel corr = .ok (idt, td) →
-      idt.time = start.time ∧ ∃ ins, tz.epochNsFor idt .compatible = .ok ins ∧ td = ns2 - ins := by
+      idt.time = start.time ∧ ∃ ins, tz.epochNsFor idt .compatible = .ok ins ∧ td = ns2 - ins ∧
+        (td.natAbs : Int) ≤ Dur.MAX_TIME_DURATION := by
   intro fuel
   induction fuel with
   | zero => intro corr idt td h; simp [dayCorrectionLoop] at h
@@ -23,10 +24,10 @@ theorem dayCorrectionLoop_spec (tz : TZ) (start end_ : IsoDateTime) (ns2 sign ma
     simp only at h
     obtain ⟨ins, h1, h⟩ := Out.bind_eq_ok h
     obtain ⟨t, h2, h⟩ := Out.bind_eq_ok h
-    obtain ⟨rfl, _⟩ := normChecked_eq_ok (by simpa [nsDifference] using h2)
+    obtain ⟨rfl, hbd⟩ := normChecked_eq_ok (by simpa [nsDifference] using h2)
     split at h
     · cases h
-      exact ⟨rfl, ins, h1, rfl⟩
+      exact ⟨rfl, ins, h1, rfl, hbd⟩
     · exact ih _ _ _ h
 
 theorem timeFromNormalized_zero_day : timeFromNormalized 0 .day = .ok Dur.zero := by decide +kernel
@@ -138,13 +139,16 @@ theorem plainDateTryNew_ok {y m d : Int} {r : IsoDate} (h : plainDateTryNew y m 
 theorem zdtDiffZoned_bracket (tz : TZ) (ns1 ns2 : Int) (L : TUnit) (date : Dur) (td : Int) (dt : IsoDateTime)
     (hne : ns1 ≠ ns2) (hd : zdtDiffZoned tz ns1 ns2 L = .ok (date, td)) (hdt : tz.isoDateTimeFor ns1 = .ok dt) :
     ∃ mid ins, plainDateAdd dt.date (dateDur date.years date.months date.weeks date.days) .constrain = .ok mid ∧
-      tz.epochNsFor ⟨mid, dt.time⟩ .compatible = .ok ins ∧ ins + td = ns2 := by
+      tz.epochNsFor ⟨mid, dt.time⟩ .compatible = .ok ins ∧ ins + td = ns2 ∧
+      date = dateDur date.years date.months date.weeks date.days ∧
+      (-2147483648 ≤ date.days ∧ date.days ≤ 2147483647) ∧ (td.natAbs : Int) ≤ Dur.MAX_TIME_DURATION ∧
+      InRange dt.date := by
   unfold zdtDiffZoned at hd
   rw [if_neg hne, hdt] at hd
   simp only [Out.bind_ok] at hd
   obtain ⟨end_, _, hd⟩ := Out.bind_eq_ok hd
   obtain ⟨⟨idt, td'⟩, hloop, hd⟩ := Out.bind_eq_ok hd
-  obtain ⟨htime, ins, hins, htd⟩ := dayCorrectionLoop_spec _ _ _ _ _ _ _ _ _ _ hloop
+  obtain ⟨htime, ins, hins, htd, htb⟩ := dayCorrectionLoop_spec _ _ _ _ _ _ _ _ _ _ hloop
   simp only at hd
   obtain ⟨sd, hsd, hd⟩ := Out.bind_eq_ok hd
   obtain ⟨ed, hed, hd⟩ := Out.bind_eq_ok hd
@@ -155,7 +159,9 @@ theorem zdtDiffZoned_bracket (tz : TZ) (ns1 ns2 : Int) (L : TUnit) (date : Dur) 
   split at hd
   · cases hd
   · cases hd
-    refine ⟨ed, ins, ?_, ?_, by omega⟩
+    have hsd : sd = dt.date := by rw [e1]
+    refine ⟨ed, ins, ?_, ?_, by omega, rfl, addDateDuration_ok_days (internalDiff_add_inverse sd ed _ dd r1 r2 hdd), htb,
+      hsd ▸ r1⟩
     · have : sd = dt.date := by rw [e1]
       rw [← this]; exact hadd
     · have : (⟨ed, dt.time⟩ : IsoDateTime) = idt := by
